@@ -8,7 +8,7 @@
 (* Pass 2 (driver jpv), patch documents made by the variation operators:   *)
 (*   VBegin(ops) VRead(st,diff) VApply(c,res)* End                         *)
 (***************************************************************************)
-EXTENDS JsonPatch, TraceCore
+EXTENDS ReadPatch, TraceCore
 FieldOrder == [k |-> 0, v |-> 0]   \* must stay the first definition of a root module (JsonValue.tla)
 
 CONSTANT Props, KnownDevs
@@ -56,6 +56,8 @@ TNative ==
 TReadOwn ==
   /\ IsEvent("ReadOwn") /\ Consume /\ Keep
   /\ ctx' = [ctx EXCEPT !.d2 = Rec.diff, !.rd = Rec.st]
+  /\ (Judge("C10") /\ Readable(ctx.ops) /\ Rec.st \in {"ok", "err"}) =>
+        LET m == ReadOps(ctx.ops) IN Note((Rec.st = "ok") = m.ok /\ (m.ok => m.diff = Rec.diff), "C10", "reader-model")
   /\ Judge("C13") => Check(Rec.st \in {"ok", "err"}, "C13", "readpatch-crash")
   /\ Judge("C10") => Check(Rec.st = "ok", "C10", "own-output-rejected")
 
@@ -72,6 +74,9 @@ TVBegin ==
 TVRead ==
   /\ IsEvent("VRead") /\ Consume /\ Keep
   /\ ctx' = [ctx EXCEPT !.d2 = Rec.diff, !.rd = Rec.st]
+  \* reader conformance: the op-grouping machine of ReadPatch.tla predicts accept / reject and the hunks (informational)
+  /\ (Judge("C10") /\ Readable(ctx.ops) /\ Rec.st \in {"ok", "err"}) =>
+        LET m == ReadOps(ctx.ops) IN Note((Rec.st = "ok") = m.ok /\ (m.ok => m.diff = Rec.diff), "C10", "reader-model")
   /\ Judge("C13") => Check(Rec.st \in {"ok", "err"}, "C13", "readpatch-crash")
 TVApply ==
   /\ IsEvent("VApply") /\ Consume /\ Keep /\ UNCHANGED ctx
